@@ -791,7 +791,13 @@ def _spec(fn):
     return SpecFunc(fn)
 
 
+def time_time(ex, st):
+    ex.assumed.append('model: time.time() returns an arbitrary real (clock)')
+    return z3.Real(fresh_name('clock'))
+
+
 LIB.update({
+    'time.time': time_time,
     'builtins.len': _len, 'builtins.range': b_range, 'builtins.list': b_list, 'builtins.tuple': lambda ex, st, v=(): tuple(b_list(ex, st, v)) if isinstance(b_list(ex, st, v), list) else b_list(ex, st, v),
     'builtins.enumerate': lambda ex, st, v, start=0: EnumVal(v, start),
     'builtins.zip': lambda ex, st, *parts: ZipVal(list(parts)),
